@@ -140,6 +140,18 @@ func (server *GripServer) DeleteGraph(ctx context.Context, elem *gripql.GraphID)
 
 // AddGraph creates a new graph on the server
 func (server *GripServer) AddGraph(ctx context.Context, elem *gripql.GraphID) (*gripql.EditResult, error) {
+	// the graphs that hold a schema or a mapping are managed by AddSchema/AddMapping:
+	// a mapping graph reroutes the graph it is named after to a gripper driver
+	if isSchema(elem.Graph) {
+		return nil, fmt.Errorf("graph names ending in %s are reserved; use AddSchema", schemaSuffix)
+	}
+	if isMapping(elem.Graph) {
+		return nil, fmt.Errorf("graph names ending in %s are reserved; use AddMapping", mappingSuffix)
+	}
+	return server.addGraph(ctx, elem)
+}
+
+func (server *GripServer) addGraph(ctx context.Context, elem *gripql.GraphID) (*gripql.EditResult, error) {
 	err := gripql.ValidateGraphName(elem.Graph)
 	if err != nil {
 		return nil, err
